@@ -106,6 +106,7 @@ FAMILIES = [
     ("queue-vs-user-lock", 1, 2, 1, 1, [(0, 1), (1, None)],
      [["a:0:1", "a:0:0", "p:0", "p:0"], ["tl:1", "tp:0", "u:0", "tp:0"]]),
     ("counters", 1, 1, 1, 2, [(0, None)], [["i:0", "d:1", "pa:0:5", "ld:0"], ["d:0", "pi:1", "ps:0:3", "oa:1:-2"]]),
+    ("atomic-max", 1, 1, 1, 2, [(0, None)], [["mx:0:5", "ml:0", "mx:0:2", "mx:1:7"], ["mx:0:9", "mx:0:3", "ml:0", "mx:1:4"]]),
     ("photons", 4, 1, 1, 1, [(0, None)], [["gs", "ap:0:150", "ap:0:100", "fb:1"], ["gs", "ap:0:200", "fb:0"]]),
 ]
 
@@ -137,7 +138,9 @@ def rand_prog(rng, kinds, length, size, nlocks, nqueues, nctr, ntasks):
             p.append("a:%d:%d" % (rng.randrange(nqueues), rng.randrange(ntasks)))
         elif k in ("p", "tp", "qs"):
             p.append("%s:%d" % (k, rng.randrange(nqueues)))
-        elif k in ("i", "d", "pi", "ld"):
+        elif k == "mx":
+            p.append("mx:%d:%d" % (rng.randrange(nctr), rng.randint(-3, 40)))
+        elif k in ("i", "d", "pi", "ld", "ml"):
             p.append("%s:%d" % (k, rng.randrange(nctr)))
         elif k in ("pa", "oa", "ps"):
             p.append("%s:%d:%d" % (k, rng.randrange(nctr), rng.randint(-5, 9)))
@@ -182,11 +185,11 @@ def random_line(rng):
     elif kind == "sync":
         kinds = ["a", "a", "p", "p", "tp", "ut", "ut", "lt", "tl", "u", "l", "qs"]
     elif kind == "counters":
-        kinds = ["i", "d", "pi", "pa", "oa", "ps", "ld"]
+        kinds = ["i", "d", "pi", "pa", "oa", "ps", "ld", "mx", "mx", "ml"]
     elif kind == "photons":
         kinds = ["gs", "ap", "ap", "fb", "gs"]
     else:
-        kinds = ["g", "gs", "f", "fb", "a", "p", "tp", "ut", "lt", "tl", "u", "i", "d", "qs", "ld"]
+        kinds = ["g", "gs", "f", "fb", "a", "p", "tp", "ut", "lt", "tl", "u", "i", "d", "qs", "ld", "mx", "ml"]
     progs = [rand_prog(rng, kinds, rng.randint(2, 8), size, nlocks, nqueues, nctr, ntasks) for _ in range(n)]
     if kind == "photons":
         # add_photons on a full pool is undefined behaviour in the C++ (index == size is
@@ -244,9 +247,25 @@ def free_lines(rng, count):
                      for _ in range(8)]
             ops.append(line(2, nlocks, 2, nctr, deps, progs, "F", str(rng.randrange(10 ** 6))))
             continue
+        if k % 4 == 0:
+            # hammer for AtomicValue::max: interleaved increasing arguments, every thread re-reads the
+            # cell after its own call returned (value >= own argument, never decreasing)
+            nth = 8
+            progs = []
+            for t in range(nth):
+                pr = []
+                for j in range(300):
+                    pr.append("mx:0:%d" % (j * nth + t + 1))
+                    if j % 3 == 0:
+                        pr.append("ml:0")
+                    if j % 7 == 0:
+                        pr.append("mx:1:%d" % rng.randint(0, 5000))
+                progs.append(pr)
+            ops.append(line(2, nlocks, 2, nctr, deps, progs, "F", str(rng.randrange(10 ** 6))))
+            continue
         if k % 2 == 0:
             mode = "F"
-            kinds = ["i", "d", "pi", "pa", "oa", "ps", "lf", "lf", "g", "f", "fb", "a"]
+            kinds = ["i", "d", "pi", "pa", "oa", "ps", "lf", "lf", "g", "f", "fb", "a", "mx", "ml"]
         else:
             mode = "G"   # oracle-only: pops and task locks included, results depend on the schedule
             kinds = ["a", "a", "p", "tp", "ut", "ut", "lt", "tl", "u", "g", "gs", "f", "i", "lf"]
@@ -260,9 +279,22 @@ def free_lines(rng, count):
     return ops
 
 
+def inner_max_yields():
+    """does AtomicValue::max of the tree under test yield before its compare-exchange / reload?
+    (hook patch seeded/_hook_c08.diff; until it is committed H1 fires once at the entry of max)"""
+    try:
+        txt = open(os.path.join(vlib.REPO, "src", "AtomicValue.hpp")).read()
+    except OSError:
+        return False
+    return 'CMAC_VERIF_YIELD("max_cas")' in txt
+
+
+EXPECTED_TAGS_INNER = ["getMaxCas>getTotal", "getMaxCas>getMax", "cMaxCas>idle", "cMaxCas>cMax"]
+
 EXPECTED_TAGS = [
+    "getMax>getMaxCas", "cMax>cMaxCas", "cLoadMx>idle",
     "getCheck>getInc", "getCheck>idle", "getInc>getCas", "getCas>getInc", "getCas>getCount", "getCount>getMax",
-    "getMax>getTotal", "getTotal>idle", "getTotal>apPlace", "freeUnlock>freeDec", "freeDec>idle",
+"getTotal>idle", "getTotal>apPlace", "freeUnlock>freeDec", "freeDec>idle",
     "lockSpin>lockSpin", "lockSpin>idle", "lockTry>idle", "unlockL>idle",
     "tl0>idle", "tl0>tl1", "tl0>popScan", "tl0>popRemove", "tl1>idle", "tl1>tlBack", "tl1>popRemove",
     "tlBack>idle", "tlBack>popScan", "tu1>tu0", "tu0>idle",
@@ -283,7 +315,7 @@ def run(ctx):
     ctx.level = "proof"
     ctx.assumptions += [
         "sequential consistency: every AtomicValue member (C++11 std::atomic, default seq_cst ordering) is one atomic transition of an interleaving semantics; no weaker memory model is considered",
-        "AtomicValue::max (statistics only) is a linearisable CAS loop, modelled as one transition; compare_exchange_weak in LockFree::add never fails spuriously in the model (a spurious failure only repeats the loop)",
+        "AtomicValue::max is modelled as its individual atomic operations (load; compare-exchange; on failure reload and recompute); compare_exchange_weak in LockFree::add never fails spuriously in the model (a spurious failure only repeats the loop)",
         "the plain (non-atomic) code between two atomic operations is a separate transition of the model, the reads of TaskQueue::_current_queue_size outside the queue lock are ordinary reads of the latest value",
         "TaskQueue capacity, size_t wrap-around of the cursor and of the counters are not modelled (unbounded Nat / Int); assertions are compiled out (HAVE_ASSERTIONS off) as in the configured build",
         "callers free / unlock only what they hold (the model's free/unlock calls take the j-th owned slot / held lock); add_photons on an exhausted pool is undefined behaviour in the C++ and is a stuck state of the model",
@@ -298,6 +330,12 @@ def run(ctx):
     if not ok:
         return
     rng = ctx.rng
+    inner = inner_max_yields()
+    ctx.cov["atomic_max_inner_yields"] = inner
+    if not inner:
+        ctx.assumptions.append("AtomicValue::max has no yield inside its loop in this tree (hook patch seeded/_hook_c08.diff not applied): "
+                               "schedule replay cannot preempt between its load and its compare-exchange; the interleavings inside max are covered "
+                               "by the theorems (max_monotone, max_is_maximum) and, on the implementation, only by the free-running hammer lines")
     L = ctx.budget(7, 12)
     streams = []
     corpus = vlib.corpus_ops("C08")
@@ -327,9 +365,12 @@ def run(ctx):
     total, same = 0, 0
     nontriv_tags = ("getCas>getInc", "getCheck>idle", "lockSpin>lockSpin", "tlBack", "tl0>popScan", "tl0>idle", "tl1>tlBack",
                     "addLock>addLock", "popLock>popLock", "tryPopLock>idle", "lfCas>lfCas", "lockTry>idle")
+    expected = EXPECTED_TAGS + (EXPECTED_TAGS_INNER if inner else [])
     for name, ops in streams:
         if not ops:
             continue
+        if inner:
+            ops = [o.replace(" | X ", " | XI ") for o in ops]
         nmis, impl, model, orc = ctx.correspond(name, h, drv, ops, cmp=cmp,
                                                 oracle_key=lambda what, grp: "c08:" + what.split("(")[0].split()[0])
         total += len(ops)
@@ -346,7 +387,7 @@ def run(ctx):
         if impl:
             ctx.sample({"stream": name, "op": ops[0], "impl": impl[0][:300]})
     ctx.cov["bit_exact_rate"] = (same / total) if total else 0.0
-    missing = [t for t in EXPECTED_TAGS if t not in ctx.cov["branch_histogram"]]
+    missing = [t for t in expected if t not in ctx.cov["branch_histogram"]]
     ctx.cov["transitions_never_taken"] = missing
     if missing and ctx.thorough:
         ctx.notes.append("coverage gate: model transitions never taken: " + ", ".join(missing))
@@ -374,7 +415,8 @@ MANIFEST = dict(
           "first unlock of unlock_dependency, add at the add_task body - to an enabled execution of the abstract lock-level spec "
           "Model/AtomicsSpec.lean; +acquire_guard, acquire_at_most_once), failed_pop_changes_nothing (stutter form + memory form), and the hydro "
           "worker-loop counter protocol hydro_counter / hydro_counter_zero (number_of_tasks is never 0 while a task is queued or running, once "
-          "the initial loop is over). No theorem is left _partial. Model tied to the "
+          "the initial loop is over). AtomicValue::max at the level of its load / compare-exchange / reload steps: max_monotone (never decreases, from "
+          "any state), max_is_maximum (+max_general with pending calls). No theorem is left _partial. Model tied to the "
           "real containers by deterministic schedule replay of real std::threads through hook H1: returned values in schedule order and the "
           "final shared state identical, plus oracles on the implementation."),
     note=("Trusted: Lean kernel + 3 axioms; sequential consistency of C++11 seq_cst atomics assumed, not derived; non-atomic reads of "
@@ -385,7 +427,10 @@ MANIFEST = dict(
           "callers free/unlock only what they hold; add_photons on an exhausted pool is undefined behaviour in the C++ (stuck state in the model). "
           "The release fragment of the hydro worker loop (children / pre_increment / pre_decrement) is transcribed into the harness (real Task, "
           "TaskQueue, AtomicValue members; the loop itself is tied by C07's trace); what a task's sweep touches is outside this model "
-          "(lock set = footprint stays C07's/C01's assumption); hydro_counter assumes tasks enter queues only via the initial loop and child release."),
+          "(lock set = footprint stays C07's/C01's assumption); hydro_counter assumes tasks enter queues only via the initial loop and child release. "
+          "Hook H1 fires once at the entry of AtomicValue::max: until seeded/_hook_c08.diff (add-only yields before its compare-exchange and reload) is "
+          "committed, schedule replay cannot preempt inside max and its inner interleavings are tied to the code only by free-running hammer lines "
+          "(oracles: value >= own argument after the call, per-thread reads never decrease, final = maximum); the check detects the patch and then replays them."),
     technique=("Lean 4 proof: sum-over-threads invariants (frame lemma + local step lemma per program counter + omega, lifted by List.foldl "
                "induction), ownership-frame arguments from slot/lock uniqueness, solo-run inductions for progress + deterministic schedule "
                "replay of real std::threads through a yield hook (baton scheduler), exhaustive schedule prefixes for two threads x short programs"))
